@@ -1678,6 +1678,15 @@ def make_config(rseed: int, prop: str, tier: str, faults: bool) -> dict[str, Any
         strpool = ["1" + infix + "2" + e, "3", "1" + e, "2" + infix + "3"] + r.sample(U.STR_POOL, 1)
     leafs = ["LeafA", "LeafB", "LeafA2", "Meta"]
     extra = ["Vals", "Carrier", "Boom", "Serial", "Upper", "Lit", "Located", "Typed", "Dyn", "CaseMix", "Both"]
+    extra.append("LocalLeaf")
+    if prop == "C01":
+        extra.append("EnumBag")
+        if r.random() < 0.2:
+            leafs += ["EnumBag", "EnumBag"]
+    if prop == "C10":
+        extra.append("AnyBox")
+        if r.random() < 0.2:
+            leafs += ["AnyBox", "AnyBox"]
     if prop in ("C01", "C03"):
         extra.append("FS2")
     if prop in ("C01",):
@@ -1846,6 +1855,13 @@ def snap_strip(s: dict[str, Any]) -> dict[str, Any]:
     return {k: ([[f, i, snap_strip(c)] for f, i, c in v] if k == "children" else v) for k, v in s.items() if k != "ref"}
 
 
+UNSERIALIZABLE = ("EnumBag", "AnyBox")  # universe classes with Any-typed values that the serializers need not support
+
+
+def unserializable(o: Any) -> bool:
+    return any(cname(x) in UNSERIALIZABLE for x in walk(o))
+
+
 def serialize(o: Any, fmt: str, opts: dict[str, Any] | None) -> Any:
     if fmt == "dict":
         return o.as_dict(serialization_options=opts)
@@ -1894,7 +1910,16 @@ class _UserError(Exception):
     """Raised by a universe visitor whose rule is 'raise'."""
 
 
-_EXC = {"AttributeError": AttributeError, "KeyError": KeyError, "TypeError": TypeError, "ValueError": ValueError, "LookupError": LookupError}
+_EXC = {
+    "AttributeError": AttributeError,
+    "KeyError": KeyError,
+    "TypeError": TypeError,
+    "ValueError": ValueError,
+    "LookupError": LookupError,
+    "IndexError": IndexError,
+    "RuntimeError": RuntimeError,
+    "StopIteration": StopIteration,  # e.g. next() on an exhausted fresh-name iterator inside a rule
+}
 
 
 def _mk_visit(cls_name: str, rule: Any, world: "World"):
@@ -2007,6 +2032,8 @@ def op_ser(self: World, op: dict[str, Any]) -> str:
             return "raised:" + type(e).__name__
         if self.on("C04"):
             raise self.viol("C04.0 serialize-raised", f"C04.0:ser:{fmt}:{type(e).__name__}", f"{fmt} serialization raised {type(e).__name__}: {e}") from None
+        if unserializable(o):
+            return "raised:unsupported-value"  # never part of a C04 run; the frame conditions are still checked
         raise Cut(f"serialize raised {type(e).__name__}: {e}") from None
     shared: dict[int, int] = {}
     snapshot = snap_tree(o, shared, [0])
@@ -2070,7 +2097,7 @@ def op_deser(self: World, op: dict[str, Any]) -> str:
             return "raised:" + type(e).__name__
         if judge:
             raise self.viol("C04.0 deserialize-raised", f"C04.0:deser:{fmt}:{type(e).__name__}", f"{fmt} deserialization raised {type(e).__name__}: {e}", fmt=fmt) from None
-        if self.cfg["digest"] < 8:
+        if self.cfg["digest"] < 8 or any(x["cls"] in UNSERIALIZABLE for x in _flatten(snapshot)):
             return "raised:" + type(e).__name__
         raise Cut(f"deserialize raised {type(e).__name__}: {e}") from None
     if judge:
@@ -2428,6 +2455,8 @@ def op_obs(self: World, op: dict[str, Any]) -> str:
     except HarnessError:
         raise
     except Exception as e:  # noqa: BLE001
+        if what in ("ser", "ser_opts") and unserializable(a):
+            return "raised:unsupported-value"
         raise Cut(f"obs {what} raised {type(e).__name__}: {e}") from None
     return "ok"
 
@@ -2613,6 +2642,8 @@ def op_transform(self: World, op: dict[str, Any]) -> str:
     except Exception as e:  # noqa: BLE001
         if self.cfg["rtc"] and type(e).__name__ == "InvalidTypes":
             outcome = "raised:InvalidTypes"
+        elif isinstance(e, RuntimeError) and isinstance(e.__cause__ or e.__context__, StopIteration) and StopIteration in raise_types:
+            outcome = "raised:UserError"  # PEP 479: a StopIteration crossing a generator frame surfaces as RuntimeError
         elif judge:
             raise self.viol("C09.0 transform-raised", f"C09.0:{type(e).__name__}", f"transform raised {type(e).__name__}: {e}") from None
         else:
